@@ -829,7 +829,7 @@ Plan gen_c06(uint64_t seed, bool th) {
       std::string path = (type == 1 || type == 4) ? kPaths[g.r.below(5)] : "";
       std::string err = type == 3 ? (g.r.pct(50) ? "com.example.Error.Oops" : "com.example.Error.Other") : "";
       int64_t rs = (type == 2 || type == 3) ? (int64_t)g.r.range(1, 20) : 0;
-      if (dest == "$bus") { type = 1; iface = "org.freedesktop.DBus"; member = g.r.pct(50) ? "ListNames" : "GetId"; path = "/org/freedesktop/DBus"; }
+      if (dest == "$bus") { type = 1; iface = "org.freedesktop.DBus"; member = g.r.pct(50) ? "ListNames" : "GetId"; path = "/org/freedesktop/DBus"; rs = 0; err = ""; }
       g.add(g.mk("send", c, {type, g.r.pct(15) ? (int64_t)g.r.below(4) : 0, -1, rs}, {dest, path, iface, member, err, ""}));
     } else if (x < 78) {
       g.add(g.mk("reply", c, {(int64_t)g.r.below(4), g.r.pct(70) ? (int64_t)g.r.below(2) : (int64_t)g.r.range(2, 5), -1}));
@@ -854,6 +854,90 @@ Plan gen_c06(uint64_t seed, bool th) {
   return g.p;
 }
 
+// ---------------------------------------------------------------- C18: monitors
+
+Plan gen_c18(uint64_t seed, bool th) {
+  G g(seed, th);
+  g.p.prop = "C18";
+  g.p.seed = seed;
+  base_shape(g, 3, th ? 7 : 5);
+  int pk = (int)g.r.below(100);
+  if (pk < 25) g.p.cfg["policy.spec"] = pol::encode(requested_replies_only_policy());
+  else if (pk < 50) {
+    // a policy that refuses some bus-originated and some client messages: monitors must still see them
+    pol::Policy p;
+    pol::Block b;
+    b.ctx = pol::Block::DEFAULT;
+    { pol::Rule r = prule(true, pol::Rule::USER); r.who = "*"; b.rules.push_back(r); }
+    { pol::Rule r = prule(true, pol::Rule::SEND); r.star_peer = true; r.requested_reply = 0; b.rules.push_back(r); }
+    { pol::Rule r = prule(true, pol::Rule::RECEIVE); r.star_peer = true; r.requested_reply = 0; r.eavesdrop = 1; b.rules.push_back(r); }
+    { pol::Rule r = prule(true, pol::Rule::OWN); r.own = "*"; b.rules.push_back(r); }
+    random_rules(g, b, (int)g.r.range(1, 4));
+    if (g.r.pct(50)) { pol::Rule r = prule(false, pol::Rule::RECEIVE); r.type = pol::Opt(g.r.pct(50) ? "signal" : "error"); if (g.r.pct(50)) r.peer = pol::Opt("org.freedesktop.DBus"); b.rules.push_back(r); }
+    p.blocks.push_back(b);
+    g.p.cfg["policy.spec"] = pol::encode(p);
+  }
+  g.sh.uids = {0, 0, 0, 1000};
+  g.connect_all(false, g.r.pct(50));
+  int nmon = 0;
+  int nops = (int)g.r.range(8, th ? 70 : 30);
+  static const char *mrules[] = {"type='signal'", "type='method_call'", "type='error'", "sender='org.freedesktop.DBus'", "interface='com.example.Iface'",
+                                 "member='NameOwnerChanged'", "path_namespace='/com/example'", "destination='$u0'", "sender='$u1'", "arg0='a'", "type='method_return'"};
+  for (int i = 0; i < nops; i++) {
+    int c = g.a_client();
+    int x = (int)g.r.below(100);
+    if (x < 10 && nmon < 3) {
+      std::vector<std::string> rules;
+      if (g.r.pct(55)) { int n = (int)g.r.range(1, 3); for (int k = 0; k < n; k++) rules.push_back(mrules[g.r.below(11)]); }
+      if (g.r.pct(6)) rules.push_back("type='bogus'");
+      g.add(g.mk("becomemonitor", c, {g.r.pct(95) ? 0 : 1, -1}, rules));
+      nmon++;
+    } else if (x < 30) {
+      std::string name = g.a_name();
+      if (g.r.pct(70)) g.add(g.mk("reqname", c, {(int64_t)g.r.below(8), -1}, {name}));
+      else g.add(g.mk("relname", c, {-1}, {name}));
+    } else if (x < 62) {
+      std::string dest;
+      int dk = (int)g.r.below(100);
+      if (dk < 35) dest = "$u" + std::to_string(g.a_client());
+      else if (dk < 60) dest = g.a_name();
+      else if (dk < 70) dest = "com.example.missing";
+      else if (dk < 90) dest = "";
+      else dest = "$bus";
+      int64_t type = dest.empty() ? (g.r.pct(85) ? 4 : 1) : (g.r.pct(55) ? 1 : (int64_t)g.r.range(1, 4));
+      std::string iface = (type == 4 || g.r.pct(70)) ? kIfaces[g.r.below(3)] : "";
+      std::string member = (type == 1 || type == 4) ? kMembers[g.r.below(3)] : "";
+      std::string path = (type == 1 || type == 4) ? kPaths[g.r.below(5)] : "";
+      std::string err = type == 3 ? "com.example.Error.Oops" : "";
+      int64_t rs = (type == 2 || type == 3) ? (int64_t)g.r.range(1, 20) : 0;
+      if (dest == "$bus") { type = 1; iface = "org.freedesktop.DBus"; member = g.r.pct(50) ? "ListNames" : "GetNameOwner"; path = "/org/freedesktop/DBus"; rs = 0; err = ""; }
+      std::vector<std::string> s = {dest, path, iface, member, err, g.r.pct(10) ? "org.freedesktop.DBus" : ""};
+      if (g.r.pct(40)) s.push_back("s:" + std::string(kStrs[g.r.below((uint64_t)kNStrs)]));
+      g.add(g.mk("send", c, {type, g.r.pct(15) ? (int64_t)g.r.below(4) : 0, -1, rs, g.r.pct(10) ? (int64_t)g.r.range(11, 5000) : 0}, s));
+    } else if (x < 74) {
+      g.add(g.mk("reply", c, {(int64_t)g.r.below(4), g.r.pct(70) ? (int64_t)g.r.below(2) : (int64_t)g.r.range(2, 5), -1}));
+    } else if (x < 82) {
+      static const char *rules[] = {"type='signal'", "eavesdrop='true'", "interface='com.example.Iface'", "sender='org.freedesktop.DBus'"};
+      g.add(g.mk(g.r.pct(80) ? "addmatch" : "rmmatch", c, {-1}, {rules[g.r.below(4)]}));
+    } else if (x < 88) {
+      g.add(g.mk("close", c));
+    } else if (x < 92) {
+      static const char *qs[] = {"GetNameOwner", "ListQueuedOwners", "ListNames", "NameHasOwner"};
+      g.add(g.mk("query", c, {-1}, {qs[g.r.below(4)], g.r.pct(60) ? g.a_name() : "$u" + std::to_string(g.a_client())}));
+    } else {
+      int ni = g.sh.nclients++;
+      unsigned uid = g.sh.uids[g.r.below(g.sh.uids.size())];
+      g.add(g.mk("connect", ni, {(int64_t)uid, (int64_t)uid, 1000 + ni, 0, 0}));
+      g.add(g.mk("auth", ni, {1}));
+      if (g.r.pct(85)) g.add(g.mk("hello", ni, {-1}));
+      else g.add(g.mk("send", ni, {1, 0, -1}, {"$u0", "/", "com.example.Iface", "Early", "", ""}));
+    }
+    g.pump();
+    if (g.r.pct(12)) g.add(g.mk("check"));
+  }
+  return g.p;
+}
+
 }  // namespace
 
 Plan generate(const std::string &prop, uint64_t seed, bool thorough) {
@@ -866,6 +950,7 @@ Plan generate(const std::string &prop, uint64_t seed, bool thorough) {
   if (prop == "C10") return gen_c10(seed, thorough);
   if (prop == "C09") return gen_c09(seed, thorough);
   if (prop == "C06") return gen_c06(seed, thorough);
+  if (prop == "C18") return gen_c18(seed, thorough);
   core::harness_error("no generator for property %s", prop.c_str());
 }
 
